@@ -256,6 +256,7 @@ def check_joiner(ck, fi):
 
 
 PARDIRS = ("os.path.pardir", "os.pardir")
+LOSSY_STR = {"lower", "upper", "casefold", "swapcase", "title", "capitalize", "strip", "lstrip", "rstrip", "replace", "translate"}
 
 
 def is_pardir(e):
@@ -362,6 +363,19 @@ class Validator:
         # --- tests relating the path and the root
         if isinstance(e, ast.Call) and isinstance(e.func, ast.Attribute) and e.func.attr == "startswith" and len(e.args) == 1:
             v, arg = e.func.value, e.args[0]
+            # os.path.normcase is the platform's own notion of path equality: look through it; any other
+            # transformation of either operand (case folding, stripping, replacing) makes distinct paths compare equal
+            def unnorm(x):
+                while isinstance(x, ast.Call) and q.dotted(x.func) == "os.path.normcase" and len(x.args) == 1:
+                    x = x.args[0]
+                return x
+
+            def lossy(x):
+                return isinstance(x, ast.Call) and isinstance(x.func, ast.Attribute) and x.func.attr in LOSSY_STR and not x.keywords and (x.func.attr in ("replace", "translate") or not x.args)
+
+            v, arg = unnorm(v), unnorm(arg)
+            if lossy(v) or lossy(arg):
+                return ("prefix-lossy", q.unparse(e))
             lhs = None
             if isinstance(v, ast.Name) and v.id == X:
                 lhs = False
@@ -440,7 +454,7 @@ def check_validator(ck, fi):
         k = V.classify(n)
         if k is not None:
             kinds[n.id] = k
-    contain_tests = [(cfg.nodes[i], k) for i, k in kinds.items() if k != "weak" and k[0] in ("prefix", "common", "prefix-derived", "rel-prefix", "rel-eq")]
+    contain_tests = [(cfg.nodes[i], k) for i, k in kinds.items() if k != "weak" and k[0] in ("prefix", "common", "prefix-derived", "prefix-lossy", "rel-prefix", "rel-eq")]
 
     def transfer(n, val):
         contained, seps, relA, relB = val
@@ -506,6 +520,8 @@ def check_validator(ck, fi):
     if has_rel_prefix:
         ck.ob("C26.contained", fi, fi.node, has_rel_eq, "a relpath-based test also rejects the relative path that is exactly '..' (the parent of the root), not only those starting with '../'", construct="relpath: bare parent")
     for n, k in contain_tests:
+        if k[0] == "prefix-lossy":
+            ck.ob("C26.contained", fi, n.ast, False, "path and root are compared exactly: after case folding / stripping / replacing, a different directory (e.g. a sibling equal to the root up to letter case) passes the prefix test")
         if k[0] == "prefix-derived":
             ck.ob("C26.root-sep", fi, n.ast, False, "the prefix that is tested is the separator-terminated root itself, not an expression derived from it (%s) whose trailing separator is not established" % k[1])
         if k[0] == "prefix":
@@ -513,7 +529,7 @@ def check_validator(ck, fi):
             ok = bool(states) and all(k[1] in st[1] for _f, st in states)
             ck.ob("C26.root-sep", fi, n.ast, ok, "at the prefix test the root ends with the path separator on every path (otherwise a sibling directory sharing the root's name prefix matches)")
         # the rejecting edge must end in HTTPError(403|404)
-        if k[0] in ("prefix", "common", "prefix-derived"):
+        if k[0] in ("prefix", "common", "prefix-derived", "prefix-lossy"):
             bad_edge = "false"
         elif k[0] == "rel-prefix":
             bad_edge = "true"
@@ -642,8 +658,8 @@ def check_writers(ck, attr, aliases=()):
     ck.floor("C26.single-writer", len(ws), 1, "writers of " + attr)
     for fi, st in ws:
         v = getattr(st, "value", None)
-        ok = fi.qualname == SF + ".get" and (self_call_name(v) == "validate_absolute_path" or (v is not None and q.dotted(v) in aliases))
-        ck.ob("C26.single-writer", fi, st, ok, "%s is written only by get() from validate_absolute_path(...)" % attr)
+        ok = self_call_name(v) == "validate_absolute_path" or (fi.qualname == SF + ".get" and v is not None and q.dotted(v) in aliases)
+        ck.ob("C26.single-writer", fi, st, ok, "%s is only ever assigned the result of validate_absolute_path(...)" % attr)
     ws = writers_of(ck.repo, W, SF, "root")
     ck.floor("C26.single-writer", len(ws), 1, "writers of self.root")
     for fi, st in ws:
@@ -831,6 +847,8 @@ MUTANTS = [
     ("default file name joined after the regular-file test", _in("validate_absolute_path", lambda root: _join_after_isfile(root)), "C26.regular-file"),
     ("character-wise commonprefix against the unterminated root", _in("validate_absolute_path", lambda root: _commonprefix(root)), "C26.root-sep"),
     ("get: validation skipped for HEAD requests", _in("get", replace_expr(lambda n: isinstance(n, ast.Call) and q.call_attr(n) == "validate_absolute_path", lambda n: ast.IfExp(test=ast.Name(id="include_body", ctx=ast.Load()), body=n, orelse=ast.Name(id="absolute_path", ctx=ast.Load())))), "C26.get-validated"),
+    ("seeded C26-adv3: prefix test on lower-cased strings", _in("validate_absolute_path", replace_expr(lambda n: isinstance(n, ast.Call) and q.call_attr(n) == "startswith" and ast.unparse(n.args[0]) == "root", lambda n: parse_expr("(absolute_path + os.path.sep).lower().startswith(root.lower())"))), "C26.contained"),
+    ("prefix test after stripping dots from the path", _in("validate_absolute_path", replace_expr(lambda n: isinstance(n, ast.Call) and q.call_attr(n) == "startswith" and ast.unparse(n.args[0]) == "root", lambda n: parse_expr("(absolute_path + os.path.sep).replace('..', '').startswith(root)"))), "C26.contained"),
     ("404 for missing file turned into a different error", _in("validate_absolute_path", replace_expr(lambda n: isinstance(n, ast.Constant) and n.value == 404, lambda n: ast.Constant(value=500))), "C26.fail-status"),
 ]
 
